@@ -134,6 +134,11 @@ def run(chk):
                    "the meter index the temperatures are grouped onto then depends on the usage values, and that day's weather is pooled into the previous day's prediction",
                    sample={"coverage": o["coverage"], "present": o.get("present")})
 
+    # the fitted cluster table must cover every (month, weekday) cell the baseline *calendar* has: the load shapes are grouped over all
+    # baseline rows (filled-in usage included).  A cell dropped here is "unseen" at prediction time and is then labelled from the
+    # reporting period's usage (the fallback the property's premise excludes only for cells the baseline really lacks).
+    _cluster_table_covers_calendar(chk, r4)
+
     # ------------------------------------------------------------------ R05.2
     hm = chk.repo.cls(*HOURLY_MODEL)
     n_writes = 0
@@ -474,3 +479,88 @@ def _classify(chk, f: FuncInfo, cfg: CFG, rd: ReachingDefs, st: ast.stmt, reads:
 
 def _inside(container: ast.AST, node: ast.AST) -> bool:
     return any(n is node for n in ast.walk(container))
+
+
+def _cluster_table_covers_calendar(chk, r4):
+    from engine.absint import AbsObj, ModuleEnv, Opaque
+    from engine.pyinterp import Function, Interp, InterpRaised, Stub, StubCall, Unsupported
+    hm = chk.repo.cls(*HOURLY_MODEL)
+    acf = method(chk, hm, "_add_categorical_features")
+    cand = [g for g in acf.module.all_funcs if g.parent_func is acf and g.name == "set_initial_temporal_clusters"]
+    if len(cand) != 1:
+        cand = [g for g in hm.methods.values() if "initial_temporal_clusters" in g.name]
+    if len(cand) != 1:
+        raise AnalysisError("HourlyModel: the function that builds the fitted temporal-cluster table (set_initial_temporal_clusters) cannot be identified")
+    f = cand[0]
+    grouped = []
+
+    class Col(Stub):
+        def __getattr__(self, name):
+            if name.startswith("_"):
+                raise AttributeError(name)
+            return StubCall(lambda *a, **k: Col())
+
+        def __invert__(self): return Col()
+        def __and__(self, o): return Col()
+        def __or__(self, o): return Col()
+        def __eq__(self, o): return Col()
+        def __ne__(self, o): return Col()
+        def __lt__(self, o): return Col()
+        def __gt__(self, o): return Col()
+        __hash__ = None
+
+    class FTok(Stub):
+        def __init__(self, ops=()):
+            self.ops = tuple(ops)
+
+        @property
+        def columns(self):
+            return ["observed", "temperature", "interpolated_observed", "interpolated_temperature", "hour_of_day", "month", "day_of_week", "date"]
+
+        def __getitem__(self, k):
+            if isinstance(k, str):
+                return Col()
+            if isinstance(k, list) and all(isinstance(x, str) for x in k):
+                return FTok(self.ops)
+            return FTok(self.ops + ("rows selected by a mask",))
+
+        @property
+        def loc(self):
+            return self
+
+        def groupby(self, *a, **k):
+            grouped.append(self.ops)
+            return Opaque("groups")
+
+        def pivot_table(self, *a, **k):
+            grouped.append(self.ops)
+            return Opaque("pivot")
+
+        def __getattr__(self, name):
+            if name.startswith("_") or name in ("values", "index", "empty", "shape", "iloc", "T"):
+                raise AttributeError(name)
+
+            def op(*a, **k):
+                return FTok(self.ops if name in ("copy", "sort_index", "sort_values", "rename", "astype", "assign", "reset_index", "set_index") else self.ops + (name,))
+            return op
+    it = Interp(step_limit=20_000)
+    me = AbsObj({"HourlyModel"}, _temporal_cluster_cols=["month", "day_of_week"], settings=Opaque("settings"))
+    env = ModuleEnv(chk.repo, f.module, it, {"pd": Opaque("pd"), "np": Opaque("np"), "_cluster_temporal_features": StubCall(lambda *a, **k: Opaque("labels"))})
+    from engine.pyinterp import Env
+    local = Env(env)
+    local.set("self", me)
+    try:
+        fn = Function(f.node, local, it)
+        if f.node.args.args and f.node.args.args[0].arg == "self":
+            fn(me, FTok())
+        else:
+            fn(FTok())
+    except InterpRaised as e:
+        r4.require(False, f"{f.key}|cluster-table-over-all-baseline-rows", f.where(), f"{f.name} raises {e.exc_name} on a well-formed baseline frame")
+        return
+    except Unsupported as e:
+        raise AnalysisError(f"{f.key}: uses an operation outside the modelled subset: {e}")
+    bad = [ops for ops in grouped if ops]
+    r4.require(bool(grouped) and not bad, f"{f.key}|cluster-table-over-all-baseline-rows", f.where(),
+               f"{f.name}: the load shapes behind the fitted cluster table must be grouped over every baseline row; here rows are dropped first ({bad[:1] or 'no grouping found'}): a (month, weekday) cell "
+               "whose usage was entirely filled in gets no row, is 'unseen' at prediction time and is then labelled from the reporting period's usage", sample={"row_operations_before_grouping": [list(x) for x in grouped]})
